@@ -295,7 +295,13 @@ func TestCacheConcurrent(t *testing.T) {
 			z.ttls["n1"] = tts
 			z.typ = []int{tHTTPS, tA, tAAAA}[round%3]
 		}
-		w.Write(Ev{"e": "reset", "scen": Ev{"ttls": tts, "G": G, "typ": z.typ}, "round": round})
+		// the cache's size is the application's to choose (Resolver.SetCacheSize): every third round runs with room for one
+		// entry (the three questions of a lookup evict one another all the time), every third without a cache at all
+		size := []int{-1, 1, 0}[round%3]
+		if size >= 0 {
+			res.SetCacheSize(size)
+		}
+		w.Write(Ev{"e": "reset", "scen": Ev{"ttls": tts, "G": G, "typ": z.typ, "evicts": size >= 0}, "round": round})
 		shared := ech.ResolveResult{Port: 443, Address: []net.IP{net.ParseIP("192.0.2.1").To4(), net.ParseIP("2001:db8::1")},
 			HTTPS: []dns.HTTPS{{Priority: 1, ALPN: []string{"h2"}, ECH: []byte{1}}, {Priority: 2, Port: 8443, ALPN: []string{"h3"}}}}
 		sharedSeq := shared.Targets("tcp")
@@ -384,7 +390,7 @@ func TestCacheConcurrent(t *testing.T) {
 				w.Write(Ev{"e": "crash", "msg": "concurrent lookups of one name did not return (deadlock): every lookup is bounded by its context and by the upstream answer"})
 				w.Write(Ev{"e": "fin"})
 				w.Close()
-				os.Exit(0)
+				exitNow()
 			}
 			close(stopClock)
 		}
@@ -489,7 +495,7 @@ func TestCacheParked(t *testing.T) {
 							w.Write(Ev{"e": "crash", "msg": msg})
 							w.Write(Ev{"e": "fin"})
 							w.Close()
-							os.Exit(0)
+							exitNow()
 						}
 						plain := lookup
 						lookup = func(g int) { // guarded: a lookup that never returns ends the run
@@ -556,7 +562,7 @@ func TestCacheParked(t *testing.T) {
 							w.Write(Ev{"e": "crash", "msg": "a lookup released after another one refreshed the entry never returned (deadlock)"})
 							w.Write(Ev{"e": "fin"})
 							w.Close()
-							os.Exit(0)
+							exitNow()
 						}
 						srv.Close()
 						for _, e := range evs {
